@@ -205,6 +205,14 @@ def mutants(s, g, rng, per):
             units = [list(u) for u in s.units]
             units[i + 4] = [["_"], "_", " "]
             flat(units, f"underscore-error@{i}")
+        # every separator of the sentence dropped once and doubled once (the recogniser decides
+        # which of these are still sentences: an optional trailing comma, for instance)
+        if k in (";", ","):
+            flat([list(u) for u in s.units[:i] + s.units[i + 1:]], f"drop-{'semicolon' if k == ';' else 'comma'}@{i}")
+            flat([list(u) for u in s.units[: i + 1] + s.units[i:]], f"double-{'semicolon' if k == ';' else 'comma'}@{i}")
+        # a comma before every closer (trailing commas are optional in some lists and forbidden elsewhere)
+        if k in ("}", ">", ")") and i >= 1 and ks[i - 1] not in (",", "{", "<", "("):
+            flat([list(u) for u in s.units[:i]] + [[[","], ",", " "]] + [list(u) for u in s.units[i:]], f"trailing-comma@{i}")
     return out
 
 
